@@ -46,6 +46,7 @@ EXPECT = [
     ("PathsForKey dropped a top-level empty key", ["C08"]),
     ("LeafNodes/LeafPaths dropped a top-level empty key", ["C09"]),
     ("with an index ignored empty path segments", ["C07", "C09"]),
+    ("mistook a parent that is the empty key", ["C11"]),
 ]
 
 
